@@ -1630,6 +1630,8 @@ func (kmc *KeystoreManagerForPoC) ChangeRemark(accountID, newRemark string) erro
 		if err != nil {
 			return err
 		}
+		// update the in-memory remark only after the transaction committed
+		addrManager.remark = newRemark
 		return nil
 	} else {
 		logging.CPrint(logging.ERROR, "account not exists",
